@@ -5,36 +5,40 @@
 (* the start of the run, taken by the harness):                              *)
 (*   start(c, ts)       just before the call                                 *)
 (*   cb(c, i, ts)       callback i entered, called from call c               *)
-(*   cbx(c, i)          callback i left                                      *)
+(*   cbx(c, i, ts)      callback i about to return                            *)
 (*   ret(c, r)          call returned "ok" | "already" | "nothing"           *)
-(* Only sound conclusions are drawn: if B's first callback entered at        *)
-(* ts_B and the previous accepted call A had started at ts_A, then the       *)
-(* library observed at least ... no: lastRun(A) >= ts_A and the check of B   *)
-(* happened <= ts_B, so acceptance of B requires ts_B - ts_A >= Skip.        *)
+(* Only sound conclusions are drawn.  Let A, B be consecutive accepted calls. *)
+(* lastRun(A) is read after A took the mutex, so it is >= start(A) and >= the *)
+(* stamp the last callback of the run before A took just before returning     *)
+(* (the mutex is held across the callbacks).  The check of B happened before  *)
+(* B's first callback was entered at ts_B.  Acceptance of B therefore         *)
+(* requires  ts_B - max(start(A), lastCbExit before A) >= Skip.               *)
+(* (InvalidatorConc.tla is the model these bounds are read from.)             *)
 (***************************************************************************)
 EXTENDS Integers, Sequences, FiniteSets, TLC, Json
 
 CONSTANTS TraceFile
 Trace == ndJsonDeserialize(TraceFile)
 
-VARIABLES l, skip, ncb, startTs, cur, nextCb, inCb, lastAccStart, ran, accepted
+VARIABLES l, skip, ncb, startTs, cur, nextCb, inCb, lastAccStart, lastCbx, ran, accepted
 
-vars == <<l, skip, ncb, startTs, cur, nextCb, inCb, lastAccStart, ran, accepted>>
+vars == <<l, skip, ncb, startTs, cur, nextCb, inCb, lastAccStart, lastCbx, ran, accepted>>
 
+Max2(a, b) == IF a >= b THEN a ELSE b
 At(f, k, d) == IF k \in DOMAIN f THEN f[k] ELSE d
 Put(f, k, v) == [x \in DOMAIN f \cup {k} |-> IF x = k THEN v ELSE f[x]]
 Ev == Trace[l]
 
 Init == l = 1 /\ skip = 0 /\ ncb = 0 /\ startTs = <<>> /\ cur = "" /\ nextCb = 1 /\ inCb = FALSE
-        /\ lastAccStart = -1 /\ ran = <<>> /\ accepted = {}
+        /\ lastAccStart = -1 /\ lastCbx = -1 /\ ran = <<>> /\ accepted = {}
 
 New ==
   /\ Ev.ev = "newtrace"
   /\ skip' = Ev.skip /\ ncb' = Ev.ncb
-  /\ startTs' = <<>> /\ cur' = "" /\ nextCb' = 1 /\ inCb' = FALSE /\ lastAccStart' = -1 /\ ran' = <<>> /\ accepted' = {}
+  /\ startTs' = <<>> /\ cur' = "" /\ nextCb' = 1 /\ inCb' = FALSE /\ lastAccStart' = -1 /\ lastCbx' = -1 /\ ran' = <<>> /\ accepted' = {}
 
 Start == Ev.ev = "start" /\ startTs' = Put(startTs, Ev.c, Ev.ts)
-         /\ UNCHANGED <<skip, ncb, cur, nextCb, inCb, lastAccStart, ran, accepted>>
+         /\ UNCHANGED <<skip, ncb, cur, nextCb, inCb, lastAccStart, lastCbx, ran, accepted>>
 
 (* A callback is entered: no other call may be inside its callbacks; the     *)
 (* callbacks of one call come in order 1..ncb; the first one of a call       *)
@@ -48,14 +52,14 @@ CbEnter ==
             /\ (lastAccStart >= 0 => Ev.ts - lastAccStart >= skip - 2)   \* 2 us: truncation of both stamps
             /\ cur' = Ev.c
             /\ accepted' = accepted \cup {Ev.c}
-            /\ lastAccStart' = At(startTs, Ev.c, Ev.ts)
+            /\ lastAccStart' = Max2(At(startTs, Ev.c, Ev.ts), lastCbx)
        ELSE /\ Ev.c = cur /\ Ev.i = nextCb
             /\ UNCHANGED <<cur, accepted, lastAccStart>>
   /\ inCb' = TRUE
   /\ nextCb' = IF Ev.i = ncb THEN 1 ELSE Ev.i + 1
-  /\ UNCHANGED <<skip, ncb, startTs, ran>>
+  /\ UNCHANGED <<skip, ncb, startTs, lastCbx, ran>>
 
-CbExit == Ev.ev = "cbx" /\ inCb /\ inCb' = FALSE
+CbExit == Ev.ev = "cbx" /\ inCb /\ inCb' = FALSE /\ lastCbx' = Ev.ts
           /\ UNCHANGED <<skip, ncb, startTs, cur, nextCb, lastAccStart, ran, accepted>>
 
 (* Return: "ok" iff this call ran the callbacks (all of them); a rejected    *)
@@ -66,7 +70,7 @@ Ret ==
        [] Ev.r = "already" -> Ev.c \notin accepted /\ ncb > 0
        [] Ev.r = "nothing" -> Ev.c \notin accepted /\ ncb = 0
        [] OTHER -> FALSE
-  /\ UNCHANGED <<skip, ncb, startTs, cur, nextCb, inCb, lastAccStart, ran, accepted>>
+  /\ UNCHANGED <<skip, ncb, startTs, cur, nextCb, inCb, lastAccStart, lastCbx, ran, accepted>>
 
 TraceNext == l <= Len(Trace) /\ l' = l + 1 /\ (New \/ Start \/ CbEnter \/ CbExit \/ Ret)
 TraceSpec == Init /\ [][TraceNext]_vars
